@@ -1357,6 +1357,7 @@ def do_selftest():
 
 
 def do_setup():
+    os.makedirs(WORK, exist_ok=True)
     vlib.build_harness()
     out = os.path.join(WORK, "selfcheck.ndjson")
     import subprocess
@@ -1371,6 +1372,7 @@ def do_setup():
 
 
 def main():
+    os.makedirs(WORK, exist_ok=True)
     ap = argparse.ArgumentParser()
     ap.add_argument("what")
     ap.add_argument("path", nargs="?")
